@@ -543,3 +543,210 @@ def shrink(prog, still_fails, max_iter=200):
             except Exception:
                 continue
     return prog
+
+
+# =====================================================================================
+# Extensions used by the graph-level checks (C04, C10, C21).  Added functions only: the
+# behaviour (and the random streams) of everything above is unchanged.
+# =====================================================================================
+
+# extra block functions for map_blocks (kept apart from BLOCK_FUNCS so existing streams
+# drawing from BLOCK_FUNCS are not perturbed)
+BLOCK_FUNCS_EXT = {
+    "ident": lambda b: b,  # returns its input object (aliasing between task values)
+    "inplace_safe": lambda b: np.add(b, 1),  # fresh output
+}
+
+EXT_OPS = ("setitem", "astype", "map_ident", "big_src", "split_rechunk", "where_scalar")
+
+
+def apply_step_ext(step, env, m, da_mode, sources=None):
+    """`apply_step` plus the extra ops of the graph-level checks.  `sources`: optional dict
+    name -> ndarray; the arrays handed to `from_array` are stored there (and reused when
+    already present) so a caller can fingerprint the user's own objects."""
+    op = step["op"]
+    A = [env[a] for a in step.get("args", [])]
+    if op == "src":
+        if not da_mode:
+            return source_data(step)
+        if sources is None:
+            data = source_data(step)
+        else:
+            if step["out"] not in sources:
+                sources[step["out"]] = source_data(step)
+            data = sources[step["out"]]
+        return m.from_array(data, chunks=tuple(tuple(c) for c in step["chunks"]))
+    if op == "astype":
+        return A[0].astype(step["dtype"])
+    if op == "map_ident":
+        f = BLOCK_FUNCS_EXT[step["fn"]]
+        return A[0].map_blocks(f, dtype=A[0].dtype) if da_mode else f(A[0])
+    if op == "where_scalar":
+        return m.where(A[0] % step["mod"] == 0, A[0], step["fill"])
+    return apply_step(step, env, m, da_mode)
+
+
+def run_np_ext(prog):
+    env = {}
+    for step in prog:
+        env[step["out"]] = apply_step_ext(step, env, np, False)
+    return env
+
+
+def run_da_ext(prog, sources=None, upto=None):
+    """Evaluate with dask_array; `sources` (dict) receives/provides the NumPy arrays behind
+    every `from_array` so that the caller keeps references to the user's objects."""
+    import dask_array as da
+
+    env = {}
+    for step in prog[: upto if upto is not None else len(prog)]:
+        env[step["out"]] = apply_step_ext(step, env, da, True, sources)
+    return env
+
+
+class ProgGenExt(ProgGen):
+    """ProgGen plus setitem / astype / identity map_blocks / big-block sources whose
+    rechunk-splits and slices are views (copy-if-small in `chunk.getitem`)."""
+
+    def add(self, step, tags=()):
+        step["out"] = self.fresh()
+        self.env[step["out"]] = apply_step_ext(step, self.env, np, False)
+        self.prog.append(step)
+        t = set(tags)
+        for a in step.get("args", []):
+            t |= self.tags.get(a, set())
+        if isinstance(step.get("value"), str):
+            t |= self.tags.get(step["value"], set())
+        self.tags[step["out"]] = t
+        return step["out"]
+
+    def g_setitem(self):
+        a = self.pick()
+        x = self.env[a]
+        if x.ndim == 0 or 0 in x.shape:
+            raise _Skip
+        if "swv" in self.tags.get(a, ()) and "swv-consumer" in self.avoid:
+            raise _Skip
+        idx = rand_basic_index(self.rng, x.shape, allow_none=False, allow_ellipsis=False, allow_neg_step=False)
+        tgt = x[idx]
+        if tgt.size == 0:
+            raise _Skip  # dask refuses some empty-target assignments NumPy accepts (not a graph property)
+        if self.rng.random() < 0.5 or tgt.ndim == 0:
+            v = self.rng.randint(-9, 9)
+        else:
+            cands = [b for b in self.env if b != a and _bcast_to_ok(self.env[b].shape, tgt.shape)
+                     and not ("swv" in self.tags.get(b, ()) and "swv-consumer" in self.avoid)]
+            v = self.rng.choice(cands) if cands else self.rng.randint(-9, 9)
+        return self.add({"op": "setitem", "args": [a], "index": _enc_index(idx), "value": v}, tags=("setitem",))
+
+    def g_astype(self):
+        return self.add({"op": "astype", "args": [self.pick()], "dtype": self.rng.choice(["int64", "int32", "float64", "int64"])})
+
+    def g_map_ident(self):
+        return self.add({"op": "map_ident", "args": [self.pick()], "fn": self.rng.choice(list(BLOCK_FUNCS_EXT))}, tags=("map_blocks",))
+
+    def g_where_scalar(self):
+        return self.add({"op": "where_scalar", "args": [self.pick()], "mod": self.rng.randint(2, 4), "fill": self.rng.randint(-3, 3)})
+
+    def g_split_rechunk(self):
+        """rechunk a coarse array into pieces: the split pieces of a big block are slices of it"""
+        a = self.pick()
+        x = self.env[a]
+        if x.ndim == 0 or x.size == 0:
+            raise _Skip
+        first = [[d] for d in x.shape]
+        mid = self.add({"op": "rechunk", "args": [a], "chunks": first})
+        second = []
+        for d in x.shape:
+            k = self.rng.randint(1, max(1, d))
+            second.append([k] + ([d - k] if d - k else []))
+        return self.add({"op": "rechunk", "args": [mid], "chunks": second})
+
+
+def _bcast_to_ok(src, dst):
+    try:
+        return np.broadcast_shapes(src, dst) == tuple(dst)
+    except ValueError:
+        return False
+
+
+EXT_DEFAULT_OPS = DEFAULT_OPS + ("setitem", "setitem", "astype", "map_ident", "split_rechunk", "where_scalar")
+
+
+def gen_program_ext(rng, depth=4, nsrc=None, **kw):
+    kw.setdefault("ops", EXT_DEFAULT_OPS)
+    g = ProgGenExt(rng, **kw)
+    g.new_source()
+    for _ in range((nsrc - 1) if nsrc else (1 if rng.random() < 0.3 else 0)):
+        g.new_source()
+    for _ in range(depth):
+        g.step()
+    return g.prog, g
+
+
+def prog_ancestry(prog):
+    """name -> set of op names among the step and all its ancestors (incl. setitem values)."""
+    anc = {}
+    for st in prog:
+        s = {st["op"]}
+        for a in st.get("args", []):
+            s |= anc.get(a, set())
+        if isinstance(st.get("value"), str):
+            s |= anc.get(st["value"], set())
+        if st["op"] == "getitem" and any(isinstance(i, list) and i and i[0] == "l" for i in st["index"]):
+            s.add("take")
+        anc[st["out"]] = s
+    return anc
+
+
+def in_known_class(prog, npenv=None):
+    """Static membership test for the defect families documented in DESIGN.md §8 /
+    known_findings.json that the graph-level generators must not emit.  Returns the
+    signature or None."""
+    anc = prog_ancestry(prog)
+    npenv = npenv if npenv is not None else run_np_ext(prog)
+    for st in prog:
+        args = st.get("args", [])
+        up = set().union(*[anc.get(a, set()) for a in args]) if args else set()
+        if isinstance(st.get("value"), str):
+            up |= anc.get(st["value"], set())
+        if st["op"] in ("broadcast_to", "repeat", "setitem", "tile") and "swv_reduce" in up:
+            return "swv-layout-drift"
+        if st["op"] == "getitem" and "swv_reduce" in up and npenv[st["out"]].size == 0:
+            return "swv-layout-drift"
+        if st["op"] == "getitem" and any(isinstance(i, list) and i and i[0] == "l" for i in st["index"]) and "broadcast_to" in up:
+            return "take-through-broadcast"
+        if (st["op"] == "reduce" and st["fn"] in ("min", "max")) or (st["op"] == "swv_reduce" and st["fn"] in ("min", "max")):
+            if npenv[args[0]].size == 0:
+                return "minmax-zero-size"
+    return None
+
+
+_KNOWN_MSG = (
+    ("swv-layout-drift", ("Missing dependency ('sliding-window-", "adjust_chunks specified with"), "swv_reduce"),
+    ("take-through-broadcast", ("Chunks do not add up to shape",), "broadcast_to"),
+)
+
+
+def classify_known(prog, message):
+    """Signature of a documented defect family for a failure message, else None."""
+    ops = {st["op"] for st in prog}
+    for sig, texts, needs in _KNOWN_MSG:
+        if needs in ops and any(t in message for t in texts):
+            return sig
+    k = in_known_class(prog) if all(st["op"] != "reshape" for st in prog) else None
+    if k == "minmax-zero-size" and ("zero-size array" in message or "shape" in message):
+        return k
+    return None
+
+
+def gen_clean_program(rng, depth, ext=False, tries=50, **kw):
+    """A generated program outside the documented defect families (and whose construction is
+    not refused); returns (prog, npenv)."""
+    kw.setdefault("avoid", ("swv-consumer",))
+    kw.setdefault("zero_axes", 0)
+    for _ in range(tries):
+        prog, g = (gen_program_ext if ext else gen_program)(rng, depth=depth, **kw)
+        if in_known_class(prog, g.env) is None:
+            return prog, g.env
+    raise RuntimeError("generator could not leave the known-defect classes")
